@@ -189,7 +189,16 @@ func (a *AliasAudit) sources(v ssa.Value, seen map[ssa.Value]bool, out map[baseK
 				out[baseForeign] = append(out[baseForeign], v)
 				return
 			}
-			if strings.HasPrefix(f.Pkg.Pkg.Path(), modPath) {
+			if pkgPathOf(f) == "slices" && len(x.Call.Args) > 0 {
+				// these hand back (a re-slicing of) their first argument
+				for _, pre := range []string{"DeleteFunc", "Delete", "Compact", "CompactFunc", "Clip", "Grow", "Insert", "Replace"} {
+					if f.Name() == pre || strings.HasPrefix(f.Name(), pre+"[") {
+						a.sources(x.Call.Args[0], seen, out)
+						return
+					}
+				}
+			}
+			if strings.HasPrefix(pkgPathOf(f), modPath) {
 				if a.returnsFresh(f) {
 					out[baseSpare] = append(out[baseSpare], v)
 				} else {
